@@ -102,13 +102,18 @@ Section Pull.
         destruct known as [|k kn]; auto. specialize (KN k eq_refl). discriminate. }
       rewrite Ehist.
       rewrite (shape_finish0 A (cb :: n) known bB cb n eq_refl TA GH NI KN). cbn [fst hd_error wid].
+      assert (HNW : exists pre n0, cb :: n = pre ++ cb :: n0 /\
+                      (pre = [] \/ exists lb, lb <> b_tomb /\ pre = [mkid (Some cb) lb]) /\
+                      (forall x, In x (cb :: n0) -> In x (history (ptree B) cb))).
+      { exists [], n. split; auto. }
+      assert (LC0 : ([] : tree) = [] /\ hd_error known = cur A \/ live_count ([] ++ ptree A) = 0%nat) by (left; auto).
+      assert (BB0 : bB <> b_tomb /\ exists par, wid (hd_error (cb :: n)) = mkid par bB).
+      { destruct BBok as [N (par & E)]. split; auto. exists par. exact E. }
       split.
-      + apply (ps_linv mkdig mkdig_inj A B cb [] (cb :: n) (hd_error known) bB (pbody A) L CBc Ca); auto.
-        * exists [], n. split; auto.
-        * destruct BBok as [N (par & E)]. split; auto. exists par. exact E.
-        * apply (li_boA _ _ _ L).
+      + exact (ps_linv mkdig mkdig_inj A B cb [] (cb :: n) (hd_error known) bB (pbody A) L CBc Ca
+                 (or_introl eq_refl) TA HNW GH NI KN KB LC0 BB0 (li_boA _ _ _ L)).
       + intros cb' E. inversion E; subst cb'.
-        apply (ps_contains_cb mkdig A B cb [] (cb :: n) (hd_error known)). exists [], n. split; auto.
+        apply (ps_contains_cb mkdig A B cb [] (cb :: n) (hd_error known) HNW).
     - (* conflict: resolve with the default policy *)
       apply orb_false_iff in LG. destruct LG as [NP NN].
       destruct (cur A) as [ca|] eqn:CA; [|discriminate].
@@ -160,9 +165,11 @@ Section Pull.
                         (pre = [] \/ exists lb, lb <> b_tomb /\ pre = [mkid (Some cb) lb]) /\
                         (forall x, In x (cb :: n0) -> In x (history (ptree B) cb))).
         { exists [new], n. split; [reflexivity|]. split; auto. right. exists lbody. auto. }
+        assert (BB1 : lbody <> b_tomb /\ exists par, wid (hd_error (new :: cb :: n)) = mkid par lbody).
+        { split; auto. exists (Some cb). reflexivity. }
         split.
-        * apply (ps_linv mkdig mkdig_inj A B cb [RT] (new :: cb :: n) (hd_error known) lbody ((T, b_empty) :: pbody A) L CBc Ca); auto.
-          split; auto. exists (Some cb). reflexivity.
+        * exact (ps_linv mkdig mkdig_inj A B cb [RT] (new :: cb :: n) (hd_error known) lbody ((T, b_empty) :: pbody A) L CBc Ca
+                   EXT T1 HNW GH' NI' KN1 KB (or_intror Z) BB1 BO1).
         * intros cb' E. inversion E; subst cb'. cbn [ptree].
           apply (ps_contains_cb mkdig A B cb [RT] (new :: cb :: n) (hd_error known) HNW).
       + (* remote wins *)
@@ -173,9 +180,11 @@ Section Pull.
                         (pre = [] \/ exists lb, lb <> b_tomb /\ pre = [mkid (Some cb) lb]) /\
                         (forall x, In x (cb :: n0) -> In x (history (ptree B) cb))).
         { exists [], n. split; auto. }
+        assert (BB1 : bB <> b_tomb /\ exists par, wid (hd_error (cb :: n)) = mkid par bB).
+        { destruct BBok as [N (par & E)]. split; auto. exists par. exact E. }
         split.
-        * apply (ps_linv mkdig mkdig_inj A B cb [RT] (cb :: n) (hd_error known) bB ((T, b_empty) :: pbody A) L CBc Ca); auto.
-          destruct BBok as [N (par & E)]. split; auto. exists par. exact E.
+        * exact (ps_linv mkdig mkdig_inj A B cb [RT] (cb :: n) (hd_error known) bB ((T, b_empty) :: pbody A) L CBc Ca
+                   EXT T1 HNW GH NI1 KN1 KB (or_intror Z) BB1 BO1).
         * intros cb' E. inversion E; subst cb'. cbn [ptree].
           apply (ps_contains_cb mkdig A B cb [RT] (cb :: n) (hd_error known) HNW).
   Qed.
